@@ -154,8 +154,44 @@ func (e *CritEnv) Leaf(t *rapid.T) *cs.Crit {
 	return c
 }
 
-// Crit draws a criteria tree of at most the given depth.
+// Crit draws a criteria tree of at most the given depth (negation chains do not count).
 func (e *CritEnv) Crit(t *rapid.T, depth int) *cs.Crit {
+	if rapid.IntRange(0, 11).Draw(t, "notchain") == 0 {
+		// a chain of 2-3 negations around a sub-tree: double-negation removal is a planner cell
+		c := e.crit(t, depth)
+		for n := rapid.IntRange(2, 3).Draw(t, "nots"); n > 0; n-- {
+			c = &cs.Crit{Op: "not", Sub: []*cs.Crit{c}}
+		}
+		return c
+	}
+	return e.crit(t, depth)
+}
+
+// pair draws two comparison leaves on the same field and the same operand, joined by And
+// or Or (x == 5 or x > 5, x >= 5 and x <= 5, ...): shared bounds with different
+// inclusiveness are a cell of the range planner.
+func (e *CritEnv) pair(t *rapid.T) *cs.Crit {
+	f := e.field(t)
+	o := e.Operand(t)
+	cmp := []string{"eq", "neq", "gt", "gte", "lt", "lte"}
+	mk := func(label string) *cs.Crit {
+		oo := o
+		if rapid.IntRange(0, 3).Draw(t, label+"-other") == 0 {
+			oo = e.Operand(t)
+		}
+		return &cs.Crit{Op: rapid.SampledFrom(cmp).Draw(t, label), Field: f, Arg: &oo}
+	}
+	a, b := mk("pair-a"), mk("pair-b")
+	if rapid.IntRange(0, 4).Draw(t, "pair-neg") == 0 {
+		a = &cs.Crit{Op: "not", Sub: []*cs.Crit{a}}
+	}
+	return &cs.Crit{Op: rapid.SampledFrom([]string{"or", "or", "and"}).Draw(t, "pair-conn"), Sub: []*cs.Crit{a, b}}
+}
+
+func (e *CritEnv) crit(t *rapid.T, depth int) *cs.Crit {
+	if depth >= 2 && rapid.IntRange(0, 7).Draw(t, "pair") == 0 {
+		return e.pair(t)
+	}
 	if depth <= 1 || rapid.IntRange(0, 2).Draw(t, "leaf") == 0 {
 		return e.Leaf(t)
 	}
@@ -208,10 +244,10 @@ func (qc *QueryCfg) Query(t *rapid.T, coll string) *cs.Query {
 	if !qc.NoWindow {
 		sz := qc.Size
 		if rapid.IntRange(0, 3).Draw(t, "hasskip") == 0 {
-			q.Skip = intp(rapid.SampledFrom([]int{-3, 0, 1, 2, sz - 1, sz, sz + 3, 1, 2}).Draw(t, "skip"))
+			q.Skip = intp(rapid.SampledFrom([]int{-3, 0, 1, 2, sz - 1, sz, sz + 3, 1, 2, math.MaxInt}).Draw(t, "skip"))
 		}
 		if rapid.IntRange(0, 3).Draw(t, "haslimit") == 0 {
-			q.Limit = intp(rapid.SampledFrom([]int{-1, 0, 1, 2, sz, sz + 3, 1, 2, 3}).Draw(t, "limit"))
+			q.Limit = intp(rapid.SampledFrom([]int{-1, 0, 1, 2, sz, sz + 3, 1, 2, 3, math.MaxInt, math.MaxInt - 2}).Draw(t, "limit"))
 		}
 	}
 	return q
